@@ -1,0 +1,102 @@
+//go:build verif
+
+// Contracts for the run-time side of debug queries (C17): which local/upvalue a (frame, number) pair names, and that
+// get/set act on exactly that variable. Comment-only; read by /verif/engine. See contracts_verif.go.
+// The compiler side (RegisterLocalVar/EndScope record the pc ranges in declaration order) is NOT decided here.
+
+package lua
+
+// active(p, pc, i): the i-th debug record of prototype p is in scope at pc;  nact(p, pc, i): how many of the first i are
+//@ define active(p *FunctionProto, pc int, i int) bool = p.DbgLocals[i].StartPc < pc && pc < p.DbgLocals[i].EndPc
+//@ uninterp nact(p *FunctionProto, pc int, i int) int
+//@ axiom nact_zero : forall p *FunctionProto, pc int :: nact(p, pc, 0) == 0
+//@ axiom nact_step : forall p *FunctionProto, pc int, i int :: 0 <= i && i < len(p.DbgLocals) ==> nact(p, pc, i + 1) == nact(p, pc, i) + ite(p.DbgLocals[i].StartPc < pc && pc < p.DbgLocals[i].EndPc, 1, 0)
+// (follows from the two defining axioms by induction on i; stated as an axiom because the solver does no induction)
+//@ axiom nact_nonneg : forall p *FunctionProto, pc int, i int :: 0 <= i ==> nact(p, pc, i) >= 0
+//@ define Inv_dbg(p *FunctionProto) bool = p != nil && offset(p.DbgLocals) == 0 && (forall i int :: 0 <= i && i < len(p.DbgLocals) ==> p.DbgLocals[i] != nil) && (forall i int, j int :: 0 <= i && i < j && j < len(p.DbgLocals) ==> p.DbgLocals[i].StartPc <= p.DbgLocals[j].StartPc)
+
+// LocalName(regno, pc): the regno-th (1-based), in declaration order, of the named variables in scope at pc - and no
+// name when fewer than regno variables are in scope (or regno < 1, or a Go function)
+//@ func (*LFunction).LocalName [C17]
+//@ requires fn != nil && (!fn.IsG ==> Inv_dbg(fn.Proto))
+//@ noraise
+//@ ensures  "go-function": fn.IsG ==> !result1
+//@ ensures  "nth-in-scope": result1 ==> !fn.IsG && exists i int :: 0 <= i && i < len(fn.Proto.DbgLocals) && active(fn.Proto, pc, i) && nact(fn.Proto, pc, i) == regno - 1 && result0 == fn.Proto.DbgLocals[i].Name
+//@ ensures  "none-otherwise": !result1 && !fn.IsG ==> forall i int :: 0 <= i && i < len(fn.Proto.DbgLocals) ==> !(active(fn.Proto, pc, i) && nact(fn.Proto, pc, i) == regno - 1)
+//@ modifies nothing
+//@ loop 1 invariant 0 <= i && i <= len(p.DbgLocals) && p == fn.Proto && !fn.IsG && regno == old(regno) - nact(p, pc, i)
+//@ loop 1 invariant forall k int :: 0 <= k && k < i ==> !(active(p, pc, k) && nact(p, pc, k) == old(regno) - 1)
+
+// the frames a debug query may name: a frame of this state's call stack with a function
+//@ define DbgFrame(ls *LState, frame *callFrame) bool = frame != nil && frame.Fn != nil && (!frame.Fn.IsG ==> Inv_dbg(frame.Fn.Proto)) && ls.stack != nil && $inv(ls.stack) && ls.reg != nil && Inv_reg(ls.reg) && 0 <= frame.Idx && (ls.currentFrame != frame && frame.Idx + 1 < $sp(ls.stack) ==> $frame(ls.stack, frame.Idx + 1) != nil)
+// top of the frame's register window: the registry top for the running frame, else the base of the next frame
+//@ define frameTop(ls *LState, frame *callFrame) int = ite(ls.currentFrame == frame, ls.reg.top, $frame(ls.stack, frame.Idx + 1).Base)
+
+// findLocal(frame, no): the name of the no-th named variable in scope at the frame's current instruction (pc - 1);
+// otherwise "(*temporary)" for a slot inside the frame's register window; otherwise ""
+// the window top lies inside the register array, and named variables live inside the window (frame well-formedness)
+//@ define frameTopOK(ls *LState, frame *callFrame) bool = ((ls.currentFrame == frame || frame.Idx + 1 < $sp(ls.stack)) ==> frameTop(ls, frame) <= len(ls.reg.array)) && (!frame.Fn.IsG ==> forall i int :: 0 <= i && i < len(frame.Fn.Proto.DbgLocals) && active(frame.Fn.Proto, frame.Pc - 1, i) ==> frame.LocalBase + nact(frame.Fn.Proto, frame.Pc - 1, i) < len(ls.reg.array))
+
+//@ func (*LState).findLocal [C17]
+//@ logged
+//@ requires ls != nil && DbgFrame(ls, frame) && frame.LocalBase >= 0 && frameTopOK(ls, frame)
+//@ noraise
+//@ ensures  "names-a-slot-of-the-window": len(result) > 0 ==> no >= 1 && frame.LocalBase + no - 1 < len(ls.reg.array)
+//@ ensures  "named": !frame.Fn.IsG && (exists i int :: 0 <= i && i < len(frame.Fn.Proto.DbgLocals) && active(frame.Fn.Proto, frame.Pc - 1, i) && nact(frame.Fn.Proto, frame.Pc - 1, i) == no - 1) ==> exists i int :: 0 <= i && i < len(frame.Fn.Proto.DbgLocals) && active(frame.Fn.Proto, frame.Pc - 1, i) && nact(frame.Fn.Proto, frame.Pc - 1, i) == no - 1 && result == frame.Fn.Proto.DbgLocals[i].Name
+//@ ensures  "temporary-or-none": (frame.Fn.IsG || forall i int :: 0 <= i && i < len(frame.Fn.Proto.DbgLocals) ==> !(active(frame.Fn.Proto, frame.Pc - 1, i) && nact(frame.Fn.Proto, frame.Pc - 1, i) == no - 1)) ==> result == ite((ls.currentFrame == frame || frame.Idx + 1 < $sp(ls.stack)) && no >= 1 && frameTop(ls, frame) - frame.LocalBase >= no, "(*temporary)", "")
+//@ modifies nothing
+
+// GetLocal / SetLocal: when the query names a variable (or temporary), the value read / the ONLY register written is
+// LocalBase + no - 1 of that frame
+//@ func (*LState).GetLocal [C17]
+//@ requires ls != nil && dbg != nil && DbgFrame(ls, dbg.frame) && dbg.frame.LocalBase >= 0 && frameTopOK(ls, dbg.frame)
+//@ noraise
+//@ ensures  "name": ncalls() == old(ncalls()) + 1 && callargInt(old(ncalls()), 2) == no && (len(callresStr(old(ncalls()), 0)) > 0 ==> result0 == callresStr(old(ncalls()), 0)) && (len(callresStr(old(ncalls()), 0)) == 0 ==> len(result0) == 0)
+//@ ensures  "value": len(result0) > 0 ==> result1 == ls.reg.array[dbg.frame.LocalBase + no - 1]
+//@ ensures  len(result0) == 0 ==> result1 == LNil
+//@ modifies nothing
+
+//@ func (*LState).SetLocal [C17]
+//@ requires ls != nil && dbg != nil && DbgFrame(ls, dbg.frame) && dbg.frame.LocalBase >= 0 && frameTopOK(ls, dbg.frame) && lv != nil
+//@ raises when overflow(ls.reg, dbg.frame.LocalBase + no)
+//@ ensures  "name": ncalls() == old(ncalls()) + 1 && callargInt(old(ncalls()), 2) == no && (len(callresStr(old(ncalls()), 0)) > 0 ==> result == callresStr(old(ncalls()), 0)) && (len(callresStr(old(ncalls()), 0)) == 0 ==> len(result) == 0)
+//@ ensures  "exactly-that-register": len(result) > 0 ==> ls.reg.array[dbg.frame.LocalBase + no - 1] == lv && (forall k int :: 0 <= k && k < old(ls.reg.top) && k != dbg.frame.LocalBase + no - 1 ==> ls.reg.array[k] == old(ls.reg.array[k]))
+//@ ensures  "nothing-otherwise": len(result) == 0 ==> ls.reg.top == old(ls.reg.top) && forall k int :: 0 <= k && k < old(ls.reg.top) ==> ls.reg.array[k] == old(ls.reg.array[k])
+//@ modifies ls.reg.array, ls.reg.array[*], ls.reg.top
+
+// debug.getupvalue / setupvalue: upvalue number no (1-based) of a Lua closure is the no-th entry of its upvalue vector,
+// named by the prototype's DbgUpvalues[no-1]; the value is read / written THROUGH the cell (open: the register it points
+// at, closed: its own value); any other number, and any Go function, yields "" and touches nothing
+//@ define UvFn(fn *LFunction) bool = fn != nil && (!fn.IsG ==> fn.Proto != nil && offset(fn.Upvalues) == 0 && offset(fn.Proto.DbgUpvalues) == 0 && len(fn.Proto.DbgUpvalues) >= len(fn.Upvalues) && (forall k int :: 0 <= k && k < len(fn.Upvalues) ==> fn.Upvalues[k] != nil && (!fn.Upvalues[k].closed && fn.Upvalues[k].reg != nil ==> Inv_reg(fn.Upvalues[k].reg) && 0 <= fn.Upvalues[k].index && fn.Upvalues[k].index < fn.Upvalues[k].reg.top)))
+//@ define uvCell(u *Upvalue) LValue = ite(u.closed || u.reg == nil, u.value, u.reg.array[u.index])
+
+//@ func (*LState).GetUpvalue [C17]
+//@ requires UvFn(fn)
+//@ noraise
+//@ ensures  "nth-upvalue": !fn.IsG && 1 <= no && no <= len(fn.Upvalues) ==> result0 == fn.Proto.DbgUpvalues[no-1] && result1 == uvCell(fn.Upvalues[no-1])
+//@ ensures  "none-otherwise": fn.IsG || no < 1 || no > len(fn.Upvalues) ==> len(result0) == 0 && result1 == LNil
+//@ modifies nothing
+
+//@ func (*LState).SetUpvalue [C17]
+//@ requires UvFn(fn)
+//@ noraise
+//@ ensures  "nth-upvalue": !fn.IsG && 1 <= no && no <= len(fn.Upvalues) ==> result == fn.Proto.DbgUpvalues[no-1] && uvCell(fn.Upvalues[no-1]) == lv
+//@ ensures  "none-otherwise": fn.IsG || no < 1 || no > len(fn.Upvalues) ==> len(result) == 0
+//@ modifies type Upvalue.value, type registry.array, type registry.top, elems(LValue)
+
+// GetStack(level): walks the Parent chain of the running frame, a Lua frame counting 1 + its number of tail calls.
+// Level 0 is the running frame; level 1 is its caller unless the running frame was entered by tail calls.
+//@ uninterp onChain(c *callFrame, f *callFrame) bool
+//@ axiom onChain_def : forall c *callFrame, f *callFrame :: onChain(c, f) <==> (c != nil && c.Parent != nil && (c.Parent == f || onChain(c.Parent, f)))
+// (follows from onChain_def by induction on the chain; stated as an axiom because the solver does no induction)
+//@ axiom onChain_step : forall c *callFrame, f *callFrame :: (c == f || onChain(c, f)) && f != nil && f.Parent != nil ==> onChain(c, f.Parent)
+//@ func (*LState).GetStack [C17]
+//@ requires ls != nil && ls.stack != nil && $inv(ls.stack) && (ls.currentFrame != nil ==> ls.currentFrame.Fn != nil && ls.currentFrame.TailCall >= 0) && (forall f *callFrame :: onChain(ls.currentFrame, f) ==> f.Fn != nil && f.TailCall >= 0) && ($sp(ls.stack) > 0 ==> $frame(ls.stack, 0) != nil)
+//@ noraise
+//@ ensures  result0 != nil && (result1 ==> result0.frame != nil && (result0.frame == ls.currentFrame || onChain(ls.currentFrame, result0.frame) || result0.frame == $frame(ls.stack, 0)))
+//@ ensures  "level-0": level == 0 && ls.currentFrame != nil ==> result1 && result0.frame == ls.currentFrame
+//@ ensures  "level-1": level == 1 && ls.currentFrame != nil && (ls.currentFrame.Fn.IsG || ls.currentFrame.TailCall == 0) && ls.currentFrame.Parent != nil ==> result1 && result0.frame == ls.currentFrame.Parent
+//@ ensures  "no-frame": ls.currentFrame == nil && level >= 0 ==> !result1
+//@ modifies nothing
+//@ loop 1 invariant frame == nil || frame == ls.currentFrame || onChain(ls.currentFrame, frame)
+//@ loop 1 invariant (level == old(level) && frame == ls.currentFrame) || (old(level) >= 1 && ls.currentFrame != nil && frame == ls.currentFrame.Parent && level == old(level) - 1 - ite(ls.currentFrame.Fn.IsG, 0, ls.currentFrame.TailCall)) || (old(level) >= 2 && ls.currentFrame != nil && level < old(level) - 1)
